@@ -185,8 +185,11 @@ def run(ctx):
                     break
             else:
                 if ctx.driver_ok:
-                    lean = ctx.get_driver().ask(dict(op='learn', n_rows=n_rows, n_cols=n_cols, min_rows_slice=min_rows, min_cols_slice=min_cols,
-                                                     front=front, script=s.log))
+                    try:
+                        lean = ctx.get_driver().ask(dict(op='learn', n_rows=n_rows, n_cols=n_cols, min_rows_slice=min_rows, min_cols_slice=min_cols,
+                                                         front=front, script=s.log))
+                    except Infra as ex:
+                        lean = 'script-mismatch: ' + str(ex)[:160]
                     txt = L.render_real(root)
                     if L.blur_unknown(lean, txt) != txt:
                         ctx.violation('c04-machine-disagrees', f'learn_spn result differs from the queue machine\n impl : {txt[:300]}\n model: {lean[:300]}',
